@@ -5,5 +5,5 @@ LEVEL = "proof"
 
 
 def run(chk, rng, replay=None):
-    runlevel.run_check(chk, rng, replay, "C07", MODULES, "C07", 350, 5000, {"C07"}, p_inject=0.1,
+    runlevel.run_check(chk, rng, replay, "C07", MODULES, "C07", 350, 5000, {"C07"}, p_inject=0.1, extra=lambda chk, verdicts: runlevel.request_met_by_result(chk, verdicts, "C07"),
                        doc="the status passed to the result matches the event that ended the run, the success flag follows the documented rule, status 0 only with resolution <= radius_final, 5 only with nfev = maxfev, 6 only with nit = maxiter, -1 / 2 only for inconsistent / all-fixed bounds")
